@@ -367,7 +367,7 @@ func (d *Decimal) setExponent(c *Context, nd int64, res Condition, xs ...int64) 
 		if !d.IsZero() {
 			res |= Subnormal
 		}
-		Etiny := c.MinExponent - (int32(c.Precision) - 1)
+		Etiny := c.etiny()
 		// Only need to round if exponent < Etiny.
 		if r < Etiny {
 			// We need to take off (r - Etiny) digits. Split up d.Coeff into integer and
